@@ -117,7 +117,7 @@ func c20(r *core.Run) {
 		e.w.FS.MaxQueuedEvents = 3 + src.Intn(10) // event loss by queue overflow
 		r.Knob("max_queued_events", e.w.FS.MaxQueuedEvents)
 	}
-	pool := []string{"/etc/cdi", "/var/run/cdi", "/opt/vendor/cdi", "/usr/local/etc/cdi"}
+	pool := []string{"/etc/cdi", "/var/run/cdi", "/opt/vendor/cdi", "/usr/local/etc/cdi", "/etc/cdi.d"}
 	// all pool directories are candidates for the mutators: changes hit former, current and future directories
 	c.dirs = pool
 	pl := &plan{files: map[string]bool{}, dirs: map[string]bool{}}
